@@ -54,6 +54,19 @@ func (bigRatEncoder) Write(enc *Encoder, v interface{}) {
 
 // WriteBigFloat to encoder.
 func (enc *Encoder) WriteBigFloat(f *big.Float) {
+	if f == nil {
+		enc.WriteNil()
+		return
+	}
+	if f.IsInf() {
+		// the grammar has its own item for the infinities, "d+Inf;" is not a double
+		if f.Signbit() {
+			enc.buf = append(enc.buf, TagInfinity, TagNeg)
+		} else {
+			enc.buf = append(enc.buf, TagInfinity, TagPos)
+		}
+		return
+	}
 	enc.buf = append(enc.buf, TagDouble)
 	enc.buf = f.Append(enc.buf, 'g', -1)
 	enc.buf = append(enc.buf, TagSemicolon)
@@ -61,6 +74,10 @@ func (enc *Encoder) WriteBigFloat(f *big.Float) {
 
 // WriteBigInt to encoder.
 func (enc *Encoder) WriteBigInt(i *big.Int) {
+	if i == nil {
+		enc.WriteNil()
+		return
+	}
 	enc.buf = append(enc.buf, TagLong)
 	enc.buf = append(enc.buf, i.String()...)
 	enc.buf = append(enc.buf, TagSemicolon)
@@ -68,6 +85,10 @@ func (enc *Encoder) WriteBigInt(i *big.Int) {
 
 // WriteBigRat to encoder.
 func (enc *Encoder) WriteBigRat(r *big.Rat) {
+	if r == nil {
+		enc.WriteNil()
+		return
+	}
 	if r.IsInt() {
 		enc.WriteBigInt(r.Num())
 	} else {
